@@ -129,6 +129,8 @@ func Documented(t *Ty, v *Val) bool {
 		return false
 	case "tuple":
 		switch v.Tag {
+		case "nil":
+			return true
 		case "ifs", "st", "sl", "arr", "slnil":
 			if len(v.Elems) != len(t.Elems) {
 				return false
@@ -200,16 +202,8 @@ func excludedScalar(t string, v *Val) bool {
 		case "date":
 			if v.Kind == "int64" && v.Tag == "i" {
 				days := floorDiv(v.Int, 86400000)
-				trunc := v.Int.Sign() < 0 && floorMod(v.Int, 86400000).Sign() != 0
-				return trunc || !fitsU(4, new(big.Int).Add(days, big.NewInt(2147483648)))
+				return !fitsU(4, new(big.Int).Add(days, big.NewInt(2147483648))) // KF-C12-5
 			}
-		case "duration":
-			return v.Kind == "int64" && v.Tag == "ni"
-		}
-		return false
-	case "big":
-		if t == "bigint" || t == "counter" {
-			return VarintLen(v.Int) != 8
 		}
 		return false
 	case "t":
@@ -222,9 +216,7 @@ func excludedScalar(t string, v *Val) bool {
 			return true
 		}
 		if t == "date" {
-			ms := new(big.Int).Add(new(big.Int).Mul(sec, big.NewInt(1000)), floorDiv(nsec, 1000000))
-			trunc := ms.Sign() < 0 && floorMod(ms, 86400000).Sign() != 0
-			return trunc || !fitsU(4, new(big.Int).Add(floorDiv(sec, 86400), big.NewInt(2147483648)))
+			return !fitsU(4, new(big.Int).Add(floorDiv(sec, 86400), big.NewInt(2147483648))) // KF-C12-5
 		}
 		return false
 	case "nf32":
@@ -284,7 +276,6 @@ func Excluded(proto byte, t *Ty, v *Val) bool {
 		}
 		return false
 	case "tuple":
-		viaIface := v.Tag == "ifs"
 		switch v.Tag {
 		case "ifs", "st", "sl", "arr":
 			for i, e := range v.Elems {
@@ -292,13 +283,6 @@ func Excluded(proto byte, t *Ty, v *Val) bool {
 					break
 				}
 				if Excluded(proto, t.Elems[i], e) {
-					return true
-				}
-				if viaIface {
-					if e.Tag != "nil" && marshalsNil(deref(e)) {
-						return true
-					}
-				} else if e.Tag == "nil" || (e.Tag != "nilptr" && marshalsNil(deref(e))) {
 					return true
 				}
 			}
